@@ -134,8 +134,17 @@ def c09():
     lsrc = create("f0", "/", wide, sorted(set(lpx)), form="df")
     lz = lambda nproc, cli=False: {"op": "legacyzoom", "src": {"file": "f0", "path": "/"}, "chunksize": 150,
                                    "nproc": nproc, "cli": cli}
+    # one list object of target resolutions handed to two zoomify calls over bases of different
+    # widths (the caller's list must mean the same both times), finer base first and coarser first
+    w2 = lay(["c1", "c2"], [[0, 2, 4, 6, 8, 10, 12], [0, 2, 4, 6]])
+    w4 = lay(["c1", "c2"], [[0, 4, 8, 12], [0, 4, 6]])
+    b2 = create("f1", "/", w2, [(i, j, 1 + (i + 2 * j) % 4) for i in range(9) for j in range(i, 9, 2)])
+    b4 = create("f3", "/", w4, [(i, j, 2 + (i + j) % 3) for i in range(5) for j in range(i, 5)])
+    zz = lambda src, out, res, how: dict(z(res), bases=[{"file": src, "path": "/"}], file=out, res_object=how)
+    shared = [[b2, b4, zz("f1", "f2", [8, 16], "keep"), zz("f3", "f4", [8, 16], "reuse")],
+              [b2, b4, zz("f3", "f4", [12, 24], "keep"), zz("f1", "f2", [12, 24], "reuse")]]
     return [[anc, z([2, 3, 6])], [anc, z([6, 3, 2, 1], 3)], [anc, z([4, 12, 2], 2)], [anc, z([2, 5, 7])],
-            [lsrc, lz(1), lz(2, True)]]
+            [lsrc, lz(1), lz(2, True)]] + shared
 
 
 def c15():
@@ -188,7 +197,13 @@ def c11():
          "configs": [{"map": "pool.imap_unordered", "chunksize": 7, "nproc": 3, "policy": "reverse", "repeat": True}],
          "visit": [{"map": "pool.imap", "chunksize": 4, "nproc": 2, "policy": "rotate"}]}
     b2 = dict(b, options=dict(opts, ignore_diags=1))
-    return [[a, b], [a, b2]]
+    # the path is rewritten (same pixels, other counts - same spans) between two balancing runs of
+    # one process whose chunk size covers the whole table
+    px2 = [(i, j, 1 + (5 * i + 2 * j) % 9) for i in range(10) for j in range(i, 10)]
+    a2 = create("f0", "/", lay(["c1", "c2"], [[0, 2, 4, 6, 8, 10, 12], [0, 2, 4, 6, 8]]), px2, form="df")
+    whole = {"op": "balance", "file": "f0", "path": "/", "options": dict(opts, ignore_diags=1),
+             "configs": [{"map": "builtin", "chunksize": None}], "visit": []}
+    return [[a, b], [a, b2], [a, whole, a2, whole]]
 
 
 def c02(tier="quick"):
